@@ -272,6 +272,7 @@ func (m *Machine) decide(cond *Term) bool {
 		other = cond
 	}
 	r, m2 := m.S.CheckWith(other, m.T.Vars)
+	m.maybeCross(other, r)
 	switch r {
 	case Sat:
 		alt := make([]Decision, i+1)
@@ -461,12 +462,7 @@ func (m *Machine) assertProp(c *Term, msg string) {
 	}
 	nc := m.T.Not(c)
 	r, m2 := m.S.CheckWith(nc, m.T.Vars)
-	if m.CrossEvery > 0 && r != Unknown {
-		m.crossCount++
-		if m.crossCount%m.CrossEvery == 0 {
-			m.crossCheck(nc, r)
-		}
-	}
+	m.maybeCross(nc, r)
 	switch r {
 	case Sat:
 		m.classify(nc, msg, m2)
